@@ -42,6 +42,29 @@ Subset extensions used there (available to every unit):
       kind of auxiliary definition, called with the literal trip count N - K;
     - any other loop whose condition can be evaluated (counter and bound literals) is unrolled by executing it
       symbolically (at most 256 rounds).
+
+Third unit group (written to lean/CB/Gen/Chains.lean, imports CB.Gen.Prim): the carry chains over the limbs of a
+`Uint<LIMBS>` — `impl Limb { adc, sbb, mac, is_nonzero }` (src/limb/{add,sub,mul,cmp}.rs; namespace CB.Gen.Chains.Limb)
+and `impl<const LIMBS: usize> Uint<LIMBS> { adc, wrapping_add, sbb, wrapping_sub, carrying_neg, wrapping_neg, is_nonzero,
+eq, lt, gt, lte }` (src/uint/{add,sub,neg,cmp}.rs; namespace CB.Gen.Chains.Uint).  Subset extensions used there:
+  a unit gathered from the inherent impl blocks (`impl[<..>] Ty[<..>] {`) of SEVERAL files (`rel` a list);
+  a unit generic over a limb count (`generic='LIMBS'`): every definition takes `(LIMBS : Nat)` first, calls inside the unit
+  pass it on; a `Uint<LIMBS>` / `Self` / `[Limb; LIMBS]` value is the list of its limbs `List (BitVec 64)`, little endian:
+  `x.limbs` is `x`, `Self { limbs }` / `Uint::new(limbs)` is `limbs`, `[Limb::ZERO; LIMBS]` is `List.replicate LIMBS 0#64`,
+  `x.limbs[i]` is `x.getD i 0#64` (total; inside `while i < LIMBS` on a `LIMBS`-limb value the default is never taken),
+  `arr[i] = e` / `arr[i] op= e` is a fresh `let arr' := arr.set i e`; indices are `Nat`s (the counter, literals, `+`);
+  `Limb(e)`, `Limb::ZERO/ONE/MAX`, `Limb::BITS`; methods resolve by the receiver's type: on a `Limb` to the `Limb` unit, on a
+  `Uint` to the `Uint` unit, on a choice to the ConstChoice unit; inside `impl Limb`/`impl Uint` a bare `adc(..)` is the
+  imported free function (units listed under `use`), never the method of the same name;
+  a fourth `while` form:
+    - `let mut i = K; while i < BOUND { ..; i += k; }` with literal K, k >= 1, a `Nat` bound (`LIMBS`) and a body that may
+      use `i` as an index becomes an auxiliary definition `<fn>_loop<j> captured.. : Nat → Nat → state.. → state` by
+      recursion on a fuel argument (called with BOUND - K, which always suffices); the second `Nat` is the current `i`,
+      and every round re-tests `i < BOUND` exactly like the `while` (`if i < BOUND then .. recurse with i + k else state`).
+      state = the outer variables the body assigns (arrays included), captured = the other outer variables it reads, both
+      in the order of their declaration in the function (not of their use: reordering the statements of the body keeps
+      the signature).  An untyped state variable (`let mut carry = 1;`) gets the one integer width that type-checks the
+      body (tried: 8, 32, 64, 128; none or several -> unsupported).
 """
 import os, re, sys, json
 
@@ -175,6 +198,13 @@ class P:
                         e = ('nfield', e, tok[1])
                 else:
                     raise Unsupported('postfix ' + str(tok))
+            elif self.at('['):
+                self.eat()
+                save, self.nostruct = self.nostruct, False
+                idx = self.expr()
+                self.nostruct = save
+                self.eat('op', ']')
+                e = ('index', e, idx)
             else:
                 return e
 
@@ -199,6 +229,16 @@ class P:
             self.eat('op', ')')
             self.nostruct = save
             return e
+        if tok[0] == 'op' and tok[1] == '[':
+            # `[elem; count]`
+            self.eat()
+            save, self.nostruct = self.nostruct, False
+            elem = self.expr()
+            self.eat('op', ';')
+            count = self.expr()
+            self.eat('op', ']')
+            self.nostruct = save
+            return ('arrayrep', elem, count)
         if tok[0] == 'id':
             path = [self.eat()[1]]
             while self.at('::'):
@@ -257,6 +297,22 @@ class P:
         self.eat('op', ';')
         return ('let', name, ty, e)
 
+    def indexed_assign(self, stmts):
+        """`name[idx] op= e;` -> ('assign_idx', name, idx, op, e); leaves the position untouched when it is something else"""
+        save = self.i
+        name = self.eat()[1]
+        self.eat('op', '[')
+        idx = self.expr()
+        self.eat('op', ']')
+        if not (self.peek()[0] == 'op' and self.peek()[1] in ASSIGN_OPS):
+            self.i = save
+            return False
+        op = self.eat()[1]
+        rhs = self.expr()
+        self.eat('op', ';')
+        stmts.append(('assign_idx', name, idx, op, rhs))
+        return True
+
     def block(self):
         """statements up to the closing brace / end of input -> (statements, final expression or None)"""
         stmts = []
@@ -285,6 +341,8 @@ class P:
                 rhs = self.expr()
                 self.eat('op', ';')
                 stmts.append(('assign', name, op, rhs))
+            elif tok[0] == 'id' and self.peek(1) == ('op', '[') and self.indexed_assign(stmts):
+                pass
             else:
                 e = self.expr()
                 if self.at_end():
@@ -327,6 +385,11 @@ def free_vars(x, acc):
         if x[1] not in acc:
             acc.append(x[1])
         free_vars(x[3], acc)
+    elif k == 'assign_idx':
+        if x[1] not in acc:
+            acc.append(x[1])
+        free_vars(x[2], acc)
+        free_vars(x[4], acc)
     elif k == 'let':
         free_vars(x[3], acc)
     elif k == 'lettuple':
@@ -378,12 +441,19 @@ def parse_params(ps, self_ty):
 STRUCTS = {}
 # newtypes over `Word`: `.0` peels one layer
 WRAP = {'Limb': 'wrap:1', 'NonZero<Limb>': 'wrap:2'}
+# units whose functions are generic over a limb count: lean namespace -> name of the const parameter (first, explicit
+# `Nat` argument of every definition of the unit)
+GENERIC_NS = {}
 
 
 def ty_of(t, self_ty):
     t = t.strip()
     if t in STRUCTS or (t == 'Self' and self_ty in STRUCTS):
         return 'struct:' + (self_ty if t == 'Self' else t)
+    if (t == 'Self' and self_ty == 'Limb'):
+        return 'wrap:1'
+    if (t == 'Self' and self_ty == 'Uint') or (self_ty == 'Uint' and re.match(r'Uint\s*<\s*LIMBS\s*>$', t)):
+        return 'uint'        # a `Uint<LIMBS>` / `[Limb; LIMBS]`: the list of its limbs, little endian
     if t in ('Self', 'ConstChoice'):
         return 'choice' if (self_ty == 'ConstChoice' or t == 'ConstChoice') else None
     if t == 'bool':
@@ -409,6 +479,10 @@ def lean_ty(t):
         return STRUCTS[t[7:]][0]
     if isinstance(t, str) and t.startswith('wrap:'):
         return 'BitVec 64'
+    if t == 'uint':
+        return 'List (BitVec 64)'
+    if t == 'nat':
+        return 'Nat'
     return f'BitVec {t}'
 
 
@@ -457,7 +531,9 @@ def parse_struct(src, name):
 class Gen:
     def __init__(self, sigs, self_ty, ns, ext=None):
         self.sigs, self.self_ty, self.ns = sigs, self_ty, ns
-        self.ext = ext or {}        # 'choice': (namespace, sigs) of the ConstChoice unit; 'use': [(namespace, sigs)] for bare calls
+        self.ext = ext or {}        # 'choice': (namespace, sigs) of the ConstChoice unit; 'use': [(namespace, sigs)] for bare calls;
+        #                             'limb' / 'uint': (namespace, sigs) of the units holding the methods of `Limb` / `Uint<LIMBS>`
+        self.generic = GENERIC_NS.get(ns)   # name of the unit's const parameter (`LIMBS`), an explicit `Nat` argument
         self.reset('')
 
     def reset(self, fname):
@@ -472,6 +548,8 @@ class Gen:
             return self.cenv[e[1]]
         if k == 'path' and len(e[1]) == 2 and e[1][1] == 'BITS' and e[1][0] in WIDTH:
             return WIDTH[e[1][0]]
+        if k == 'path' and e[1] == ['Limb', 'BITS']:
+            return 64
         if k == 'bin' and e[1] in '+-*':
             a, b = self.const(e[2]), self.const(e[3])
             if a is None or b is None:
@@ -495,6 +573,18 @@ class Gen:
         if where == 'choice' and self.self_ty != 'ConstChoice':
             c = self.ext.get('choice')
             return (c[0], c[1].get(name)) if c else (None, None)
+        if where in ('limb', 'uint'):
+            # a method of `Limb` / `Uint<LIMBS>`: the unit itself when it is the impl of that type, else the unit holding it
+            if self.self_ty == {'limb': 'Limb', 'uint': 'Uint'}[where]:
+                return (self.ns, self.sigs[name]) if name in self.sigs else (None, None)
+            c = self.ext.get(where)
+            return (c[0], c[1].get(name)) if c else (None, None)
+        if where == 'bare' and self.self_ty in ('Limb', 'Uint'):
+            # inside `impl Limb` a bare `adc(..)` is the imported free function, never the method of the same name
+            for ns, sg in self.ext.get('use', []):
+                if name in sg:
+                    return ns, sg[name]
+            return None, None
         if name in self.sigs:
             return self.ns, self.sigs[name]
         if where == 'bare':
@@ -510,6 +600,8 @@ class Gen:
         """-> (lean text, type)"""
         k = e[0]
         if k == 'lit':
+            if want == 'nat' and e[2] in (None, 'usize'):
+                return str(e[1]), 'nat'          # an index / limb count
             w = WIDTH.get(e[2]) if e[2] else (want if isinstance(want, int) else None)
             if w is None:
                 raise Unsupported('untyped literal')
@@ -518,6 +610,8 @@ class Gen:
             if e[1] not in env:
                 raise Unsupported('unknown variable ' + e[1])
             if env[e[1]][1] == 'lit':
+                if want == 'nat':
+                    return env[e[1]][0], 'nat'
                 if not isinstance(want, int):
                     raise Unsupported('untyped literal')
                 return f'{env[e[1]][0]}#{want}', want
@@ -530,6 +624,10 @@ class Gen:
                 return f'(~~~0#{WIDTH[p[0]]})', WIDTH[p[0]]
             if p[0] in WIDTH and p[1] == 'BITS':
                 return f'{WIDTH[p[0]]}#32', 32
+            if len(p) == 2 and (p[0] == 'Limb' or (p[0] == 'Self' and self.self_ty == 'Limb')) and p[1] in ('ZERO', 'ONE', 'MAX'):
+                return {'ZERO': '0#64', 'ONE': '1#64', 'MAX': '(~~~0#64)'}[p[1]], 'wrap:1'
+            if len(p) == 2 and p[0] == 'Limb' and p[1] == 'BITS':
+                return '64#32', 32
             raise Unsupported('path ' + '::'.join(p))
         if k == 'field':
             t, ty = self.ex(e[1], env)
@@ -541,8 +639,25 @@ class Gen:
             if isinstance(ty, tuple):
                 return f'({t}).{e[2] + 1}', ty[e[2]]
             raise Unsupported('field of ' + str(ty))
+        if k == 'index':
+            t, ty = self.ex(e[1], env)
+            if ty != 'uint':
+                raise Unsupported('index into ' + str(ty))
+            ix, tix = self.ex(e[2], env, 'nat')
+            if tix != 'nat':
+                raise Unsupported('index of type ' + str(tix))
+            # total access: inside `while i < LIMBS` on a `LIMBS`-limb value the default is never taken
+            return f'({atom(t)}.getD {atom(ix)} 0#64)', 'wrap:1'
+        if k == 'arrayrep':
+            el, tel = self.ex(e[1], env, 'wrap:1')
+            n, tn = self.ex(e[2], env, 'nat')
+            if tel != 'wrap:1' or tn != 'nat':
+                raise Unsupported('array literal')
+            return f'(List.replicate {atom(n)} {atom(el)})', 'uint'
         if k == 'nfield':
             t, ty = self.ex(e[1], env)
+            if ty == 'uint' and e[2] == 'limbs':
+                return t, 'uint'
             if isinstance(ty, str) and ty.startswith('struct:'):
                 for f, fty in STRUCTS[ty[7:]][1]:
                     if f == e[2]:
@@ -550,6 +665,11 @@ class Gen:
             raise Unsupported('named field ' + e[2])
         if k == 'struct':
             name = self.self_ty if e[1] == 'Self' else e[1]
+            if name == 'Uint' and self.generic and [f for f, _ in e[2]] == ['limbs']:
+                t, ty = self.ex(e[2][0][1], env)
+                if ty != 'uint':
+                    raise Unsupported('Uint { limbs } of ' + str(ty))
+                return t, 'uint'
             if name not in STRUCTS:
                 raise Unsupported('struct literal ' + str(e[1]))
             lname, fields = STRUCTS[name]
@@ -603,6 +723,11 @@ class Gen:
                         raise Unsupported('shift amount type')
                     return f'({t} {lop} ({s} % {ty}#{ts}))', ty
                 return f'({t} {lop} {c})', ty
+            if want == 'nat' and op == '+':
+                a, ta = self.ex(e[2], env, 'nat'); b, tb = self.ex(e[3], env, 'nat')
+                if ta != 'nat' or tb != 'nat':
+                    raise Unsupported('index arithmetic')
+                return f'({a} + {b})', 'nat'
             a, ta = None, None
             # literals take the type of the other operand
             if (e[2][0] == 'lit' and not e[2][2]) or self.is_lit_var(e[2], env):
@@ -615,6 +740,8 @@ class Gen:
                 tb = 64
             if ta != tb:
                 raise Unsupported(f'operand types differ: {ta} {tb}')
+            if ta == 'nat':
+                raise Unsupported('index arithmetic')
             if op in ('==', '!=', '<', '>', '<=', '>='):
                 if ta == 'bool':
                     raise Unsupported('bool comparison')
@@ -645,6 +772,10 @@ class Gen:
                 return (f'(BitVec.clz {atom(r)})' if tr == 32 else f'((BitVec.clz {atom(r)})).setWidth 32'), 32
             if tr == 'choice':
                 return self.call(name, [recv] + args, env, 'choice')
+            if tr == 'wrap:1':
+                return self.call(name, [recv] + args, env, 'limb')
+            if tr == 'uint':
+                return self.call(name, [recv] + args, env, 'uint')
             raise Unsupported('method ' + name)
         if k == 'call':
             p = e[1]
@@ -653,6 +784,27 @@ class Gen:
                 if ty != 64:
                     raise Unsupported('Self(non-word)')
                 return t, 'choice'
+            if p == ['Limb'] or (p == ['Self'] and self.self_ty == 'Limb'):
+                if len(e[2]) != 1:
+                    raise Unsupported('Limb(..) arity')
+                t, ty = self.ex(e[2][0], env, 64)
+                if ty != 64:
+                    raise Unsupported('Limb(non-word)')
+                return t, 'wrap:1'
+            if len(p) == 2 and p[1] == 'new' and self.generic and (p[0] == 'Uint' or (p[0] == 'Self' and self.self_ty == 'Uint')):
+                # `Uint::new(limbs)` is `Self { limbs }`
+                if len(e[2]) != 1:
+                    raise Unsupported('Uint::new arity')
+                t, ty = self.ex(e[2][0], env)
+                if ty != 'uint':
+                    raise Unsupported('Uint::new of ' + str(ty))
+                return t, 'uint'
+            if len(p) == 2 and p[0] == 'Limb' and self.self_ty != 'Limb':
+                return self.call(p[1], e[2], env, 'limb')
+            if len(p) == 2 and p[0] == 'Uint' and self.self_ty != 'Uint':
+                return self.call(p[1], e[2], env, 'uint')
+            if len(p) == 2 and p[0] in ('Limb', 'Uint') and p[0] == self.self_ty:
+                return self.call(p[1], e[2], env, 'self')
             if len(p) == 2 and p[0] == 'Self':
                 return self.call(p[1], e[2], env, 'self')
             if len(p) == 2 and p[0] == 'ConstChoice':
@@ -675,6 +827,11 @@ class Gen:
             if ty != pt and not (ty == 64 and pt == 'choice') and not (ty == 'choice' and pt == 64):
                 raise Unsupported(f'argument type {ty} for {pt} in {name}')
             parts.append(atom(t))
+        if ns in GENERIC_NS:
+            # same limb count as the caller (`Self` is `Uint<LIMBS>` on both sides)
+            if self.generic != GENERIC_NS[ns] or env.get(self.generic, (None, None))[1] != 'nat':
+                raise Unsupported('call into a generic unit from outside')
+            parts.insert(0, env[self.generic][0])
         return f'({ns}.{name} ' + ' '.join(parts) + ')', rty
 
     # ---- statements
@@ -730,6 +887,19 @@ class Gen:
                 if ty != cur:
                     raise Unsupported(f'assignment changes the type of {name}')
                 self.bind(name, t, ty, env, lines)
+            elif k == 'assign_idx':
+                # `arr[i] = e` / `arr[i] op= e`: a new list with position `i` replaced
+                _, name, idx, op, rhs = st
+                if name not in env or env[name][1] != 'uint':
+                    raise Unsupported('indexed assignment to ' + name)
+                e = rhs if op == '=' else ('bin', op[:-1], ('index', ('var', name), idx), rhs)
+                ix, tix = self.ex(idx, env, 'nat')
+                if tix != 'nat':
+                    raise Unsupported('index of type ' + str(tix))
+                t, ty = self.ex(e, env, 'wrap:1')
+                if ty != 'wrap:1':
+                    raise Unsupported('array element of type ' + str(ty))
+                self.bind(name, f'{atom(env[name][0])}.set {atom(ix)} {atom(t)}', 'uint', env, lines)
             elif k == 'while':
                 self.do_while(st[1], st[2], env, lines)
             else:
@@ -775,6 +945,11 @@ class Gen:
                 if c is None:
                     raise Unsupported('loop condition stopped being constant')
             return
+        # (3) `let mut i = K; while i < BOUND { ..; i += k; }` with a literal K, a limb-count BOUND (`LIMBS`) and a body that
+        #     may use `i` as an index
+        if (cond[0] == 'bin' and cond[1] == '<' and cond[2][0] == 'var' and cond[2][1] in self.cenv
+                and env.get(cond[2][1], (None, None))[1] == 'lit'):
+            return self.emit_loop_up(cond, body, env, lines)
         # (2) `while i > 0 { i -= 1; .. }`: structural recursion on i.toNat
         if not (cond[0] == 'bin' and cond[1] == '>' and cond[2][0] == 'var' and cond[3][0] == 'lit' and cond[3][1] == 0):
             raise Unsupported('loop form')
@@ -842,6 +1017,116 @@ class Gen:
             for idx, s in enumerate(state):
                 self.bind(s, f'{tmp}{proj(idx, len(state))}', styp[idx], env, lines)
 
+    LIT_WIDTHS = (8, 32, 64, 128)
+
+    def emit_loop_up(self, cond, body, env, lines):
+        """`while i < BOUND { body; i += k; }` (i an untyped counter with the constant value K at entry, BOUND a `Nat`
+        expression such as `LIMBS`, k >= 1 a literal) as an auxiliary definition
+            `<fn>_loop<j> captured.. : Nat → Nat → state.. → state`
+        by recursion on a fuel argument (first `Nat`; BOUND - K rounds always suffice since k >= 1), the second `Nat` being
+        the current value of `i`; each round re-tests the loop condition, exactly like the `while`.
+        state = the outer variables the body assigns (arrays included: `arr[i] = e` is `arr.set i e`), captured = the
+        other outer variables it reads; both in the order of their declaration in the function.
+        An untyped state variable (`let mut carry = 1;`) gets the one integer width that type-checks the body."""
+        i = cond[2][1]
+        start = self.cenv[i]
+        if not body or not (body[-1][0] == 'assign' and body[-1][1] == i and body[-1][2] == '+='
+                            and body[-1][3][0] == 'lit' and body[-1][3][1] >= 1):
+            raise Unsupported('loop form: the body must end with the increment of the counter')
+        step = body[-1][3][1]
+        rest = body[:-1]
+        assigned = []
+        for st in rest:
+            if st[0] == 'while':
+                raise Unsupported('nested loop')
+            if st[0] in ('assign', 'assign_idx') and st[1] not in assigned:
+                assigned.append(st[1])
+        if i in assigned or not assigned or any(s not in env for s in assigned):
+            raise Unsupported('loop state')
+        if set(free_vars(cond[3], [])) & set(assigned + [i]):
+            raise Unsupported('loop bound changes inside the loop')
+        state = [v for v in env if v in assigned]
+        used = free_vars(rest, []) + free_vars(cond[3], [])
+        captured = [v for v in env if v in used and v not in state and v != i]
+        if any(env[v][1] == 'lit' for v in captured):
+            raise Unsupported('loop body reads an untyped counter')
+        untyped = [s for s in state if env[s][1] == 'lit']
+        if len(untyped) > 2:
+            raise Unsupported('too many untyped loop variables')
+        choices = [[]]
+        for s in untyped:
+            choices = [c + [w] for c in choices for w in self.LIT_WIDTHS]
+        saved = (self.pn, self.nloop, list(self.aux), dict(self.cenv))
+        found = []
+        for ch in choices:
+            self.pn, self.nloop, self.aux, self.cenv = saved[0], saved[1], list(saved[2]), {}
+            styp = [ch[untyped.index(s)] if s in untyped else env[s][1] for s in state]
+            try:
+                found.append((styp, self.loop_up_text(i, step, cond[3], rest, state, styp, captured, env), self.pn, self.nloop, self.aux))
+            except Unsupported as ex:
+                err = ex
+        self.pn, self.nloop, self.aux, self.cenv = saved[0], saved[1], list(saved[2]), saved[3]
+        if len(found) != 1:
+            raise (err if not found else Unsupported('ambiguous type of an untyped loop variable'))
+        styp, (text, aux, capa, bound), self.pn, self.nloop, self.aux = found[0]
+        self.aux.append(text)
+        for s, ty in zip(state, styp):
+            if env[s][1] == 'lit':
+                env[s] = (f'{env[s][0]}#{ty}', ty)       # the literal initial value, now typed
+                self.cenv.pop(s, None)
+        count = bound if start == 0 else f'({bound} - {start})'
+        callt = f'({self.ns}.{aux}' + ''.join(f' {atom(env[v][0])}' for v in captured) + f' {count} {start} ' + ' '.join(atom(env[s][0]) for s in state) + ')'
+        if len(state) == 1:
+            self.bind(state[0], callt, styp[0], env, lines)
+        else:
+            self.pn += 1
+            tmp = f'p{self.pn}'
+            lines.append(f'let {tmp} := {callt}')
+            for idx, s in enumerate(state):
+                self.bind(s, f'{tmp}{proj(idx, len(state))}', styp[idx], env, lines)
+        # the counter after the loop: BOUND when it ran 0, 1, .., BOUND - 1; otherwise not tracked (a later use is unsupported)
+        self.cenv.pop(i, None)
+        if start == 0 and step == 1:
+            env[i] = (bound, 'nat')
+        else:
+            del env[i]
+
+    def loop_up_text(self, i, step, bound_e, rest, state, styp, captured, env):
+        self.nloop += 1
+        aux = f'{self.fname}_loop{self.nloop}'
+        env2 = {}
+        for v in captured:
+            env2[v] = (self.fresh('self_' if v == 'self' else v, env2), env[v][1])
+        for s, ty in zip(state, styp):
+            env2[s] = (self.fresh(s, env2), ty)
+        nvar = self.fresh('n', env2)
+        env2['\0n'] = (nvar, 'nat')
+        env2[i] = (self.fresh(i, env2), 'nat')
+        ivar = env2[i][0]
+        outer, declared = set(env2), set()
+        pat = ', '.join(env2[s][0] for s in state)
+        tup = f'({pat})' if len(state) > 1 else pat
+        capb = ''.join(f' ({env2[v][0]} : {lean_ty(env2[v][1])})' for v in captured)
+        capa = ''.join(f' {env2[v][0]}' for v in captured)
+        bound, tb = self.ex(bound_e, env2, 'nat')
+        if tb != 'nat':
+            raise Unsupported('loop bound of type ' + str(tb))
+        lines2 = []
+        self.run(rest, env2, lines2, declared)
+        if declared & outer:
+            raise Unsupported('loop body shadows an outer variable')
+        if any(env2[s][1] != ty for s, ty in zip(state, styp)):
+            raise Unsupported('loop state changes type')
+        res = ' × '.join(lean_ty(t) for t in styp)
+        text = (f'@[gen_defs] def {aux}{capb} : Nat → Nat → ' + ' → '.join(lean_ty(t) for t in styp) + f' → {res}\n'
+                + f'  | 0, {ivar}, {pat} => {tup}\n'
+                + f'  | {nvar} + 1, {ivar}, {pat} =>\n    if {ivar} < {bound} then\n      ' + '\n      '.join(lines2)
+                + f'\n      {self.ns}.{aux}{capa} {nvar} ({ivar} + {step}) ' + ' '.join(env2[s][0] for s in state)
+                + f'\n    else {tup}')
+        # the bound as seen from the caller
+        bound_out, _ = self.ex(bound_e, env, 'nat')
+        return text, aux, capa, bound_out
+
     def body(self, body, env, rty):
         """function body -> lean lines"""
         body = re.sub(r'//[^\n]*', '', body)
@@ -871,17 +1156,35 @@ class Gen:
         return nm
 
 
-def translate_file(path, ns, self_ty, want=None, private=False, ext=None):
-    src = open(path).read()
-    if self_ty:
-        m = re.search(r'impl\s+' + self_ty + r'\s*\{', src)
-        if not m:
-            raise Unsupported('impl block of ' + self_ty + ' not found')
+def impl_blocks(src, self_ty):
+    """the bodies of all inherent impl blocks `impl[<..>] Ty[<..>] {` of a file, concatenated"""
+    out = []
+    for m in re.finditer(r'\bimpl\s*(?:<[^>{]*>)?\s*' + self_ty + r'\s*(?:<[^>{]*>)?\s*\{', src):
         depth, j = 1, m.end()
         while depth and j < len(src):
             depth += {'{': 1, '}': -1}.get(src[j], 0)
             j += 1
-        src = src[m.end():j - 1]
+        out.append(src[m.end():j - 1])
+    if not out:
+        raise Unsupported('impl block of ' + self_ty + ' not found')
+    return '\n'.join(out)
+
+
+def translate_file(path, ns, self_ty, want=None, private=False, ext=None):
+    if isinstance(path, list):
+        # a unit gathered from several files: the inherent impl blocks of `self_ty` in each of them
+        src = '\n'.join(impl_blocks(open(f).read(), self_ty) for f in path)
+    else:
+        src = open(path).read()
+        if self_ty:
+            m = re.search(r'impl\s+' + self_ty + r'\s*\{', src)
+            if not m:
+                raise Unsupported('impl block of ' + self_ty + ' not found')
+            depth, j = 1, m.end()
+            while depth and j < len(src):
+                depth += {'{': 1, '}': -1}.get(src[j], 0)
+                j += 1
+            src = src[m.end():j - 1]
     fns = []
     for attrs, name, params, ret, body in find_functions(src, private):
         if 'target_pointer_width = "32"' in attrs:
@@ -898,7 +1201,7 @@ def translate_file(path, ns, self_ty, want=None, private=False, ext=None):
             if any(t is None for t in ptys) or rty is None:
                 raise Unsupported('type')
             sigs[name] = (ptys, rty); plist[name] = ps
-        except Unsupported:
+        except (Unsupported, ValueError, IndexError, KeyError, TypeError):
             pass
     out, failed = {}, {}
     g = Gen(sigs, self_ty, ns, ext)
@@ -911,6 +1214,9 @@ def translate_file(path, ns, self_ty, want=None, private=False, ext=None):
             env = {}
             binders = []
             g.reset(name)
+            if g.generic:
+                env[g.generic] = (g.generic, 'nat')
+                binders.append(f'({g.generic} : Nat)')
             for (n, _), t in zip(plist[name], ptys):
                 ln = 'self_' if n == 'self' else n
                 env[n] = (ln, t)
@@ -920,6 +1226,10 @@ def translate_file(path, ns, self_ty, want=None, private=False, ext=None):
         except Unsupported as ex:
             failed[name] = str(ex)
             sigs.pop(name, None)   # callers of an untranslated function are untranslated too (detected at call)
+        except (KeyError, IndexError, TypeError, ValueError, AttributeError, RecursionError) as ex:
+            # a source shape nobody anticipated: never an exception, the function is simply not translated
+            failed[name] = 'translator error: ' + repr(ex)
+            sigs.pop(name, None)
     # a caller translated before its (later, failing) callee was reached: untranslated too
     changed = True
     while changed:
@@ -950,6 +1260,16 @@ FILES = [
              struct='Reciprocal', use=['prim']),
         dict(key='reciprocal', rel=DIV_LIMB, ns='CB.Gen.DivLimb.Reciprocal', self_ty='Reciprocal',
              desc='impl Reciprocal', want=['new', 'default'], use=['div_limb', 'prim']),
+    ]),
+    # the carry chains over the limbs of a `Uint<LIMBS>`: a value is the list of its limbs, `LIMBS : Nat` an explicit argument
+    ('Chains.lean', ['CB.Gen.Prim', None, 'set_option linter.unusedVariables false'], [
+        dict(key='limb', rel=['src/limb/add.rs', 'src/limb/sub.rs', 'src/limb/mul.rs', 'src/limb/cmp.rs'],
+             ns='CB.Gen.Chains.Limb', self_ty='Limb', desc='impl Limb: thin wrappers over the word primitives',
+             want=['adc', 'sbb', 'mac', 'is_nonzero'], use=['prim']),
+        dict(key='uint', rel=['src/uint/add.rs', 'src/uint/sub.rs', 'src/uint/neg.rs', 'src/uint/cmp.rs'],
+             ns='CB.Gen.Chains.Uint', self_ty='Uint', generic='LIMBS',
+             desc='impl<const LIMBS: usize> Uint<LIMBS>: add / sub / neg / compare loops over the limbs',
+             want=['adc', 'wrapping_add', 'sbb', 'wrapping_sub', 'carrying_neg', 'wrapping_neg', 'is_nonzero', 'eq', 'lt', 'gt', 'lte']),
     ]),
 ]
 
@@ -991,8 +1311,10 @@ def main():
         parts = ['/- GENERATED by tools/translate.py from /repo on every check run. Do not edit. -/'] + [(f'import {m}' if m and not m.startswith('set_option') else (m or '')) for m in imports] + ['']
         for u in units:
             rel, ns, self_ty, desc = u['rel'], u['ns'], u['self_ty'], u['desc']
-            path = os.path.join(REPO, rel)
-            parts.append(f'/-! {desc} ({rel}) -/')
+            path = [os.path.join(REPO, r) for r in rel] if isinstance(rel, list) else os.path.join(REPO, rel)
+            if u.get('generic'):
+                GENERIC_NS[ns] = u['generic']
+            parts.append(f'/-! {desc} ({", ".join(rel) if isinstance(rel, list) else rel}) -/')
             parts.append(f'namespace {ns}')
             if u.get('struct'):
                 # `struct Name { field: intty, .. }` -> a lean structure with the same field names
@@ -1009,7 +1331,8 @@ def main():
                 if stext:
                     STRUCTS[sname] = (f'{ns}.{sname}', fields)
                     parts.append(stext); parts.append('')
-            ext = dict(choice=reg.get('choice'), use=[reg[k] for k in u.get('use', []) if k in reg])
+            ext = dict(choice=reg.get('choice'), limb=reg.get('limb'), uint=reg.get('uint'),
+                       use=[reg[k] for k in u.get('use', []) if k in reg])
             try:
                 order, out, failed, sigs = translate_file(path, ns, self_ty, u.get('want'), u.get('private', False), ext)
             except (Unsupported, OSError) as ex:
